@@ -23,6 +23,7 @@ type canidStream struct{ baseStream }
 func init() { register(canidStream{}) }
 
 func (canidStream) Name() string    { return "canid" }
+func (canidStream) Parallel() bool  { return true } // no shared state: cases run on all cores
 func (canidStream) Props() []string { return []string{"C14"} }
 
 type bop struct{ k, f, l int }
